@@ -7,6 +7,7 @@ import (
 	"go/constant"
 	"go/token"
 	"go/types"
+	"os"
 	"sort"
 	"strings"
 
@@ -1015,6 +1016,20 @@ func (p *Prog) staticCallSites(fn *ssa.Function) ([]*ssa.Call, bool) {
 			}
 			return m[f]
 		}
+		wrapped := map[*ssa.Function][]*ssa.Function{}
+		propagate := func() {
+			// a wrapper that is referenced as a value, reached through an interface or called from real code passes
+			// its status on to what it wraps (two rounds: wrappers of wrappers)
+			for round := 0; round < 3; round++ {
+				for w, cs := range wrapped {
+					if r := m[w]; r != nil && (!r.ok || len(r.sites) > 0) {
+						for _, c2 := range cs {
+							get(c2).ok = false
+						}
+					}
+				}
+			}
+		}
 		for g := range ssautil.AllFunctions(p.Prog) {
 			if g.Blocks == nil || !(p.inMQ(g) || g.Synthetic != "") {
 				continue
@@ -1026,7 +1041,9 @@ func (p *Prog) staticCallSites(fn *ssa.Function) ([]*ssa.Call, bool) {
 						callee = ci.Common().StaticCallee()
 						if call, isPlain := ins.(*ssa.Call); isPlain && callee != nil {
 							if g.Synthetic != "" {
-								get(callee).ok = false // reached through a wrapper (method value, interface method table)
+								// a wrapper (pointer-receiver form of a value method, bound method, interface thunk): it matters
+								// only if the wrapper itself is used, which is decided below
+								wrapped[g] = append(wrapped[g], callee)
 							} else {
 								get(callee).sites = append(get(callee).sites, call)
 							}
@@ -1059,8 +1076,12 @@ func (p *Prog) staticCallSites(fn *ssa.Function) ([]*ssa.Call, bool) {
 				}
 			}
 		}
+		propagate()
 	}
 	r := m[fn]
+	if os.Getenv("MQV_AGG") != "" {
+		fmt.Fprintf(os.Stderr, "staticsites %s: r=%v synthetic=%q\n", fn, r, fn.Synthetic)
+	}
 	if r == nil || !r.ok || fn.Synthetic != "" || fn.Parent() != nil || fn.Object() == nil || fn.Object().Exported() {
 		return nil, false
 	}
